@@ -5,6 +5,9 @@ import NavisModel.Drv.Prune
 import NavisModel.Drv.C08
 import NavisModel.Drv.C19
 import NavisModel.Drv.C16
+import NavisModel.Drv.C15
+import NavisModel.Drv.C06
+import NavisModel.Drv.C02
 /-! `navisdrv`: one request per line on stdin (`<prop>.<cmd> <payload>`), one answer per line on stdout. -/
 open Navis
 
@@ -17,6 +20,9 @@ def handle (head rest : String) : Option String :=
   | ["c08", cmd] => Drv.C08.run cmd rest
   | ["c19", cmd] => Drv.C19.run cmd rest
   | ["c16", cmd] => Drv.C16.run cmd rest
+  | ["c15", cmd] => Drv.C15.run cmd rest
+  | ["c06", cmd] => Drv.C06.run cmd rest
+  | ["c02", cmd] => Drv.C02.run cmd rest
   | ["ping"] => some "pong"
   | _ => none
 
